@@ -280,6 +280,14 @@ StreamDevs(t0, t) ==
     {Dev("C09.malformed", "lexer", 0, 0, x) : x \in t.bad \ t0.bad}
     \cup {Dev("EXTRA.unknown_sequence", "lexer", 0, 0, x) : x \in t.unk \ t0.unk}
 
+\* Init / Resume / Suspend / Fini and the mode calls write capability strings only: any character that reaches the display
+\* there is residue of the parameter or padding language (or raw text that should have been a sequence)
+NoText(t0, t) ==
+    IF \E i \in 1..Len(t.g) : t.g[i].st > t0.stamp /\ ~t.g[i].er
+    THEN {Dev("C09.residue", "text_outside_a_draw", 0, 0,
+              LET i == CHOOSE j \in 1..Len(t.g) : t.g[j].st > t0.stamp /\ ~t.g[j].er IN <<i, t.g[i].cp>>)}
+    ELSE {}
+
 \* registers a draw must not touch (C09: content cannot act as a control sequence)
 Untouched(t0, t) ==
     {Dev("C09.injection", p, 0, 0, 0) : p \in
@@ -379,7 +387,9 @@ Draw(e, sync) ==
 
 TtyStep(s, e) ==
     LET a == TtyRun([st |-> s.tty, cb |-> s.cbreg, bad |-> {}, afterStop |-> FALSE], e.tty, 1, e.ev = "Fini")
-    IN <<[s EXCEPT !.tty = a.st, !.cbreg = a.cb], {Dev("C04.tty_contract", x, 0, 0, e.ev) : x \in a.bad}>>
+    \* the life of the Tty ends with the screen's: the first Fini closes it, running or suspended
+    IN <<[s EXCEPT !.tty = a.st, !.cbreg = a.cb],
+         {Dev("C04.tty_contract", x, 0, 0, e.ev) : x \in a.bad \cup (IF e.ev = "Fini" /\ a.st # "closed" THEN {"not_closed_at_fini"} ELSE {})}>>
 
 \* engage: Init and Resume
 Engage(e, b0) ==
@@ -391,18 +401,18 @@ Engage(e, b0) ==
         \* whether the engage output saved the title: the stack grew at some point
         s2 == [s1 EXCEPT !.pushed = Len(t1.tstack) > Len(t0.tstack)]
     IN <<t1, CB!ReqResize(b0, scr.tw, scr.th), s2,
-         StreamDevs(t0, t1) \cup ModeDevs(cfg, t1, s2, "C04.resume_modes")
+         StreamDevs(t0, t1) \cup NoText(t0, t1) \cup ModeDevs(cfg, t1, s2, "C04.resume_modes")
          \cup (IF t1.title = s2.title \/ s2.title = <<>> \/ ~(Has(cfg, "SetWindowTitle") \/ cfg.xtermlike)
                THEN {} ELSE {Dev("EXTRA.title", "resume", 0, 0, 0)})>>
 
 Disengage(e) ==
     LET t1 == Feed(term, e)
         s1 == [scr EXCEPT !.running = FALSE, !.trusted = FALSE, !.fini = e.ev = "Fini"]
-    IN <<t1, CB!ReqResize(cb, 0, 0), s1, StreamDevs(term, t1) \cup RestoredDevs(cfg, t1, scr)>>
+    IN <<t1, CB!ReqResize(cb, 0, 0), s1, StreamDevs(term, t1) \cup NoText(term, t1) \cup RestoredDevs(cfg, t1, scr)>>
 
 ModeCall(e, s1) ==
     LET t1 == Feed(term, e) IN
-    <<t1, cb, s1, StreamDevs(term, t1)
+    <<t1, cb, s1, StreamDevs(term, t1) \cup NoText(term, t1)
       \cup (IF s1.running THEN ModeDevs(cfg, t1, s1, "C04.mode_call") ELSE {})>>
 
 \* returns <<term', cb', scr', devs>>
